@@ -1,13 +1,461 @@
-// Package c06 is the correspondence harness for property C06 (placeholder).
+// Package c06 is the correspondence harness for property C06: subscribed plugins get each
+// event once, in index order, in one common order.
+//
+// Three streams, all against a real Adaptation with real stub-connected plugins (package rt):
+//
+//	masks  – EXHAUSTIVE: every mask 0..8191 configured on a plugin (batches of 100 with
+//	         distinct two-digit indices in shuffled registration order; the 0 mask both through
+//	         the stub and as a literal 0 in the Configure reply), one request of each of the 13
+//	         kinds per batch;
+//	random – 1..8 plugins, indices drawn WITH duplicates, random masks, vetoing and clashing
+//	         plugins, random interleaving of registrations, disconnects and the 13 calls;
+//	conc   – 2..16 caller goroutines issuing mixed requests while late plugins register; every
+//	         handler stamps (seq, plugin, request, event) from one atomic counter.
 package c06
 
 import (
-	"errors"
+	"encoding/json"
+	"fmt"
+	"math/rand"
+	"os"
+	"path/filepath"
+	"runtime"
+	"sync"
+	"time"
 
+	"verifh/c06/rt"
 	"verifh/internal/hx"
 	"verifh/internal/lineio"
 )
 
+// ---------------------------------------------------------------------------------------
+// case formats
+
+// Op is one step of a sequential case.
+type Op struct {
+	Op     string   `json:"op"` // reg | req | stop
+	Plugin *rt.Spec `json:"plugin"`
+	Ev     int      `json:"ev"`
+	ID     string   `json:"id"`
+	Name   string   `json:"name"`
+}
+
+type SeqIn struct {
+	Kind   string `json:"kind"` // "seq"
+	Stream string `json:"stream"`
+	Ops    []Op   `json:"ops"`
+}
+
+type Inv struct {
+	P string `json:"p"`
+	R string `json:"r"`
+	E int    `json:"e"`
+}
+
+type OpObs struct {
+	Op  string     `json:"op"`
+	OK  bool       `json:"ok"`
+	Log []Inv      `json:"log"`
+	Res *rt.Result `json:"res"`
+}
+
+type SeqObs struct {
+	Ops  []OpObs `json:"ops"`
+	Fail string  `json:"fail"` // harness-level failure (registration refused, timeout): "" normally
+}
+
+type Req struct {
+	Ev int    `json:"ev"`
+	ID string `json:"id"`
+}
+
+type ConcIn struct {
+	Kind    string    `json:"kind"` // "conc"
+	Plugins []rt.Spec `json:"plugins"`
+	Late    []rt.Spec `json:"late"`
+	Callers [][]Req   `json:"callers"`
+	Procs   int       `json:"procs"`
+}
+
+type ConcObs struct {
+	Hist    []rt.Stamp    `json:"hist"`
+	Results [][]rt.Result `json:"results"`
+	Fail    string        `json:"fail"`
+}
+
+// ---------------------------------------------------------------------------------------
+// execution
+
+func invs(st []rt.Stamp) []Inv {
+	out := make([]Inv, 0, len(st))
+	for _, s := range st {
+		out = append(out, Inv{s.Plugin, s.Req, s.Ev})
+	}
+	return out
+}
+
+func runSeq(dir string, in *SeqIn) (obs SeqObs) {
+	obs.Ops = []OpObs{}
+	r, err := rt.NewRuntime(dir, nil)
+	if err != nil {
+		obs.Fail = "runtime: " + err.Error()
+		return
+	}
+	defer r.Close()
+	byName := map[string]*rt.Plugin{}
+	for _, op := range in.Ops {
+		o := OpObs{Op: op.Op, Log: []Inv{}}
+		switch op.Op {
+		case "reg":
+			p, err := r.Connect(*op.Plugin, rt.ConnectOpts{})
+			o.OK = err == nil
+			if err != nil {
+				obs.Fail = "reg: " + err.Error()
+			} else {
+				byName[p.Name] = p
+			}
+			r.Rec.Take()
+		case "stop":
+			if p := byName[op.Name]; p != nil {
+				p.Stop()
+				o.OK = true
+			}
+		case "req":
+			res := r.Do(op.Ev, op.ID)
+			o.Res = &res
+			o.OK = true
+			o.Log = invs(r.Rec.Take())
+		}
+		obs.Ops = append(obs.Ops, o)
+	}
+	return
+}
+
+func runConc(dir string, in *ConcIn) (obs ConcObs) {
+	obs.Hist = []rt.Stamp{}
+	obs.Results = make([][]rt.Result, len(in.Callers))
+	if in.Procs > 0 {
+		defer runtime.GOMAXPROCS(runtime.GOMAXPROCS(in.Procs))
+	}
+	r, err := rt.NewRuntime(dir, nil)
+	if err != nil {
+		obs.Fail = "runtime: " + err.Error()
+		return
+	}
+	defer r.Close()
+	yield := func(*rt.Plugin, int, string) error { runtime.Gosched(); return nil }
+	for _, s := range in.Plugins {
+		if _, err := r.Connect(s, rt.ConnectOpts{Hook: yield}); err != nil {
+			obs.Fail = "reg: " + err.Error()
+			return
+		}
+	}
+	r.Rec.Take()
+	var wg sync.WaitGroup
+	start := make(chan struct{})
+	for i, reqs := range in.Callers {
+		obs.Results[i] = make([]rt.Result, len(reqs))
+		wg.Add(1)
+		go func(i int, reqs []Req) {
+			defer wg.Done()
+			<-start
+			for j, q := range reqs {
+				t0 := r.Rec.Tick()
+				res := r.Do(q.Ev, q.ID)
+				res.T0, res.T1 = t0, r.Rec.Tick()
+				obs.Results[i][j] = res
+			}
+		}(i, reqs)
+	}
+	var lateErr error
+	wg.Add(1)
+	go func() {
+		defer wg.Done()
+		<-start
+		for _, s := range in.Late {
+			// the probes WaitActive sends are requests like any other, concurrent with the callers'
+			if _, err := r.Connect(s, rt.ConnectOpts{Hook: yield}); err != nil {
+				lateErr = err
+				return
+			}
+		}
+	}()
+	close(start)
+	done := make(chan struct{})
+	go func() { wg.Wait(); close(done) }()
+	select {
+	case <-done:
+	case <-time.After(60 * time.Second):
+		obs.Fail = "blocked"
+		return
+	}
+	if lateErr != nil {
+		obs.Fail = "reg: " + lateErr.Error()
+	}
+	obs.Hist = r.Rec.Take()
+	return
+}
+
+// ---------------------------------------------------------------------------------------
+// generators
+
+const allEv = rt.NumEvents
+
+func idx2(n int) string { return fmt.Sprintf("%02d", n%100) }
+
+func genMasks(o *hx.Opts) []*SeqIn {
+	rnd := o.Rand(601)
+	var cases []*SeqIn
+	const B = 100
+	masks := make([]uint32, 0, 8192+8)
+	for m := uint32(0); m <= rt.ValidMask; m++ {
+		masks = append(masks, m)
+	}
+	type ent struct {
+		m   uint32
+		raw bool
+	}
+	ents := make([]ent, 0, len(masks)+B)
+	for _, m := range masks {
+		ents = append(ents, ent{m, false})
+	}
+	// the literal-0 reply and a seeded sample of other masks through the raw plugin service
+	ents = append(ents, ent{0, true})
+	for pad := (B - len(ents)%B) % B; pad > 0; pad-- {
+		ents = append(ents, ent{uint32(rnd.Intn(int(rt.ValidMask) + 1)), true})
+	}
+	for b := 0; b*B < len(ents); b++ {
+		chunk := ents[b*B : min(len(ents), (b+1)*B)]
+		in := &SeqIn{Kind: "seq", Stream: "masks"}
+		idxs := rnd.Perm(100)
+		order := rnd.Perm(len(chunk))
+		for _, k := range order {
+			e := chunk[k]
+			in.Ops = append(in.Ops, Op{Op: "reg", Plugin: &rt.Spec{Idx: idx2(idxs[k]),
+				Name: fmt.Sprintf("m%d%s", e.m, map[bool]string{true: "r", false: ""}[e.raw]), Mask: e.m, Raw: e.raw}})
+		}
+		for _, ev := range rnd.Perm(allEv) {
+			in.Ops = append(in.Ops, Op{Op: "req", Ev: ev + 1, ID: fmt.Sprintf("b%d-e%d", b, ev+1)})
+		}
+		cases = append(cases, in)
+	}
+	return cases
+}
+
+func randMask(rnd *rand.Rand) uint32 {
+	switch rnd.Intn(6) {
+	case 0:
+		return 0
+	case 1:
+		return rt.ValidMask
+	case 2:
+		return 1 << uint(rnd.Intn(allEv))
+	case 3:
+		return uint32(rnd.Intn(int(rt.ValidMask))+1) & uint32(rnd.Intn(int(rt.ValidMask))+1)
+	default:
+		return uint32(rnd.Intn(int(rt.ValidMask) + 1))
+	}
+}
+
+var idxPool = []string{"00", "00", "05", "10", "10", "10", "50", "99", "99", "09", "90"}
+
+func randIdx(rnd *rand.Rand) string {
+	if rnd.Intn(3) == 0 {
+		return idx2(rnd.Intn(100))
+	}
+	return idxPool[rnd.Intn(len(idxPool))]
+}
+
+func randSpec(rnd *rand.Rand, n int, faulty bool) *rt.Spec {
+	s := &rt.Spec{Idx: randIdx(rnd), Name: fmt.Sprintf("p%d", n), Mask: randMask(rnd), Raw: rnd.Intn(5) == 0}
+	if faulty {
+		switch rnd.Intn(8) {
+		case 0:
+			s.Veto = 1 << uint(rnd.Intn(allEv))
+		case 1:
+			s.Veto = uint32(rnd.Intn(int(rt.ValidMask) + 1))
+		case 2:
+			s.Clash = 1<<(rt.EvCreate-1) | 1<<(rt.EvUpdate-1) | 1<<(rt.EvStop-1)
+		}
+	}
+	return s
+}
+
+func genRandom(o *hx.Opts, i int) *SeqIn {
+	rnd := o.Rand(60200000 + int64(i))
+	in := &SeqIn{Kind: "seq", Stream: "random"}
+	n := 0
+	var live []string
+	reg := func() {
+		s := randSpec(rnd, n, true)
+		n++
+		in.Ops = append(in.Ops, Op{Op: "reg", Plugin: s})
+		live = append(live, s.Name)
+	}
+	for k := 1 + rnd.Intn(4); k > 0; k-- {
+		reg()
+	}
+	steps := 8 + rnd.Intn(30)
+	if rnd.Intn(4) == 0 {
+		// a whole lifecycle, in order
+		for _, ev := range []int{rt.EvRunPod, rt.EvCreate, rt.EvPostCreate, rt.EvStart, rt.EvPostStart, rt.EvUpdate,
+			rt.EvPostUpdate, rt.EvUpdatePod, rt.EvPostUpdatePod, rt.EvStop, rt.EvRemove, rt.EvStopPod, rt.EvRemovePod} {
+			in.Ops = append(in.Ops, Op{Op: "req", Ev: ev, ID: fmt.Sprintf("r%d-l%d", i, ev)})
+		}
+	}
+	for k := 0; k < steps; k++ {
+		switch x := rnd.Intn(20); {
+		case x == 0 && n < 8:
+			reg()
+		case x == 1 && len(live) > 1:
+			j := rnd.Intn(len(live))
+			in.Ops = append(in.Ops, Op{Op: "stop", Name: live[j]})
+			live = append(live[:j], live[j+1:]...)
+		default:
+			in.Ops = append(in.Ops, Op{Op: "req", Ev: 1 + rnd.Intn(allEv), ID: fmt.Sprintf("r%d-%d", i, k)})
+		}
+	}
+	return in
+}
+
+func genConc(o *hx.Opts, i int) *ConcIn {
+	rnd := o.Rand(60300000 + int64(i))
+	in := &ConcIn{Kind: "conc", Plugins: []rt.Spec{}, Late: []rt.Spec{}}
+	n := 0
+	for k := 1 + rnd.Intn(6); k > 0; k-- {
+		s := randSpec(rnd, n, rnd.Intn(4) == 0)
+		// keep most plugins widely subscribed so that requests meet at several plugins
+		if rnd.Intn(3) != 0 {
+			s.Mask = 0
+		}
+		in.Plugins = append(in.Plugins, *s)
+		n++
+	}
+	for k := rnd.Intn(3); k > 0; k-- {
+		s := randSpec(rnd, n, false)
+		in.Late = append(in.Late, *s)
+		n++
+	}
+	callers := 2 + rnd.Intn(15)
+	for c := 0; c < callers; c++ {
+		var reqs []Req
+		for k := 3 + rnd.Intn(8); k > 0; k-- {
+			ev := 1 + rnd.Intn(allEv)
+			if rnd.Intn(2) == 0 {
+				ev = []int{rt.EvCreate, rt.EvUpdate, rt.EvStop}[rnd.Intn(3)]
+			}
+			reqs = append(reqs, Req{Ev: ev, ID: fmt.Sprintf("c%d-%d", c, len(reqs))})
+		}
+		in.Callers = append(in.Callers, reqs)
+	}
+	in.Procs = []int{0, 0, 1, 2, 4}[rnd.Intn(5)]
+	return in
+}
+
+// ---------------------------------------------------------------------------------------
+
+type job struct {
+	id  string
+	in  interface{}
+	obs interface{}
+}
+
+func exec(dir string, j *job) {
+	d, err := os.MkdirTemp(dir, "c")
+	if err != nil {
+		j.obs = SeqObs{Fail: err.Error()}
+		return
+	}
+	defer os.RemoveAll(d)
+	switch in := j.in.(type) {
+	case *SeqIn:
+		j.obs = runSeq(d, in)
+	case *ConcIn:
+		j.obs = runConc(d, in)
+	}
+}
+
+func runJobs(o *hx.Opts, w *lineio.Writer, jobs []*job, par int) {
+	var wg sync.WaitGroup
+	ch := make(chan *job)
+	for k := 0; k < par; k++ {
+		wg.Add(1)
+		go func() {
+			defer wg.Done()
+			for j := range ch {
+				exec(o.Scratch, j)
+			}
+		}()
+	}
+	for _, j := range jobs {
+		ch <- j
+	}
+	close(ch)
+	wg.Wait()
+	for _, j := range jobs {
+		w.Put(&lineio.Case{ID: j.id, In: j.in, Obs: j.obs})
+	}
+}
+
+func decode(raw json.RawMessage) (interface{}, error) {
+	var k struct {
+		Kind string `json:"kind"`
+	}
+	if err := json.Unmarshal(raw, &k); err != nil {
+		return nil, err
+	}
+	switch k.Kind {
+	case "seq":
+		in := &SeqIn{}
+		return in, json.Unmarshal(raw, in)
+	case "conc":
+		in := &ConcIn{}
+		return in, json.Unmarshal(raw, in)
+	}
+	return nil, fmt.Errorf("unknown case kind %q", k.Kind)
+}
+
 func Run(o *hx.Opts, w *lineio.Writer) error {
-	return errors.New("C06 harness not implemented")
+	rt.Quiet()
+	if len(filepath.Join(o.Scratch, "c0123456789", "n123456.sock")) > 100 {
+		// unix socket paths are limited; fall back to a short private directory
+		d, err := os.MkdirTemp("", "c06-")
+		if err != nil {
+			return err
+		}
+		defer os.RemoveAll(d)
+		o.Scratch = d
+	}
+	if o.Replay != "" {
+		cases, err := hx.ReplayCases(o.Replay)
+		if err != nil {
+			return err
+		}
+		var jobs []*job
+		for _, c := range cases {
+			in, err := decode(c.In)
+			if err != nil {
+				return err
+			}
+			jobs = append(jobs, &job{id: c.ID, in: in})
+		}
+		runJobs(o, w, jobs, 1)
+		return nil
+	}
+	var seq, conc []*job
+	if o.Budget <= 1 {
+		for i, in := range genMasks(o) {
+			seq = append(seq, &job{id: fmt.Sprintf("masks-%d", i), in: in})
+		}
+	}
+	for i := 0; i < o.N(200, 2000); i++ {
+		seq = append(seq, &job{id: fmt.Sprintf("random-%d", i), in: genRandom(o, i)})
+	}
+	for i := 0; i < o.N(60, 2000); i++ {
+		conc = append(conc, &job{id: fmt.Sprintf("conc-%d", i), in: genConc(o, i)})
+	}
+	runJobs(o, w, seq, 4)
+	// concurrent cases one at a time: they set GOMAXPROCS and want the cores to themselves
+	runJobs(o, w, conc, 1)
+	return nil
 }
